@@ -92,6 +92,16 @@ theorem pipeline_keeps_path_keys (fc : Facts) (x : Ext) (o : Opts) (fuel : Nat) 
     | obj _ m m' hm => exact SkelKvs.keys_eq hm
     | arr _ xs ys _ => rfl
 
+/-- no top-level part appears or disappears, except `definitions` (where the new definitions go) and,
+    with RemoveUnused, the shared sections that option drops: "the only additions are new definitions" -/
+theorem pipeline_adds_no_top_level_part (fc : Facts) (x : Ext) (o : Opts) (fuel : Nat) (s s' : St)
+    (h : flatten fc x o fuel s = .ok s') (key : String) (hk : key ∉ excluded o) :
+    (s'.doc.get? key).isSome = (s.doc.get? key).isSome := by
+  have hr := flatten_keeps fc x o fuel s s' h key hk
+  generalize s.doc.get? key = a at hr
+  generalize s'.doc.get? key = b at hr
+  cases hr <;> rfl
+
 /-! ### examples of paths that `reachesOther` accepts -/
 
 example : reachesOther .paths ["/pets/{id}", "get", "responses", "200", "description"] = true := by decide
